@@ -60,6 +60,12 @@ type e7Bus struct {
 	attempts []int  // Publish calls per endpoint (also counted when silenced)
 	seqs     []int  // messages actually queued per endpoint
 	silenced []bool // crashed endpoints
+	// Slow publish: HoldNext(ep) makes the next Publish call of endpoint ep park
+	// inside Publish (a stalled Redis PUBLISH) until Release(ep); the message is
+	// queued -- and gets its sequence number -- only when it is released.
+	holdArmed []bool
+	holding   []chan struct{}
+	entered   []int // Publish calls that have started, per endpoint
 	// Publish errors (a Redis outage as seen by the publisher): while FaultsOn,
 	// the k-th Publish call of endpoint ep fails -- returns an error, queues
 	// nothing -- iff failScript[ep][k]. The script is drawn by the driver when the
@@ -90,10 +96,47 @@ func (b *e7Bus) Endpoint(failScript []bool) *e7Endpoint {
 	b.mu.Lock()
 	defer b.mu.Unlock()
 	b.failScript = append(b.failScript, failScript)
+	b.holdArmed = append(b.holdArmed, false)
+	b.holding = append(b.holding, nil)
+	b.entered = append(b.entered, 0)
 	b.attempts = append(b.attempts, 0)
 	b.seqs = append(b.seqs, 0)
 	b.silenced = append(b.silenced, false)
 	return &e7Endpoint{bus: b, idx: len(b.attempts) - 1}
+}
+
+// HoldNext arms the stall for endpoint ep's next Publish call.
+func (b *e7Bus) HoldNext(ep int) {
+	b.mu.Lock()
+	b.holdArmed[ep] = true
+	b.mu.Unlock()
+}
+
+// Holding reports whether a Publish call of endpoint ep is parked right now.
+func (b *e7Bus) Holding(ep int) bool {
+	b.mu.Lock()
+	defer b.mu.Unlock()
+	return b.holding[ep] != nil
+}
+
+// Entered is the number of Publish calls endpoint ep has started.
+func (b *e7Bus) Entered(ep int) int {
+	b.mu.Lock()
+	defer b.mu.Unlock()
+	return b.entered[ep]
+}
+
+// Release lets the parked Publish call of endpoint ep go on (no-op if none);
+// it also disarms a stall that was never reached.
+func (b *e7Bus) Release(ep int) {
+	b.mu.Lock()
+	ch := b.holding[ep]
+	b.holding[ep] = nil
+	b.holdArmed[ep] = false
+	b.mu.Unlock()
+	if ch != nil {
+		close(ch)
+	}
 }
 
 // Attempts is the number of Publish calls endpoint ep has made.
@@ -255,6 +298,15 @@ var _ pubsub.PubSub = (*e7Endpoint)(nil)
 func (e *e7Endpoint) Publish(ctx context.Context, topic, message string) error {
 	b := e.bus
 	b.mu.Lock()
+	b.entered[e.idx]++
+	if b.holdArmed[e.idx] {
+		b.holdArmed[e.idx] = false
+		ch := make(chan struct{})
+		b.holding[e.idx] = ch
+		b.mu.Unlock()
+		<-ch // a stalled PUBLISH; the driver releases it
+		b.mu.Lock()
+	}
 	defer b.mu.Unlock()
 	if k := b.attempts[e.idx]; b.FaultsOn && !b.silenced[e.idx] && k < len(b.failScript[e.idx]) && b.failScript[e.idx][k] {
 		b.PublishErrors++
